@@ -17,7 +17,7 @@
 From Coq Require Import ZArith.
 From XV Require Import lib.Bytes lib.Xml lib.Schema C19.Form C19.Types C19.Model C19.Spec C19.ProofsLib
   C19.ProofsA C19.ProofsB C19.ProofsC C19.ProofsD C19.ProofsE C19.ProofsF C19.ProofsG
-  C19.ProofsForm1 C19.ProofsForm2 C19.ProofsForm3 C19.ProofsForm4 C19.ProofsH C19.ProofsS gen.Payloads C19.ProofsGen.
+  C19.ProofsForm1 C19.ProofsForm2 C19.ProofsForm3 C19.ProofsForm4 C19.ProofsH C19.ProofsS C19.ProofsI gen.Payloads C19.ProofsGen.
 
 (* ---- the constants of the models are those of the source (regenerated on every run) ---- *)
 
@@ -448,6 +448,65 @@ Print Assumptions C19_saslerr_condition_wellformed.
 Theorem C19_saslerr_condition_unmarshal_total : dec_total scond_c.
 Proof. exact scond_dec_total. Qed.
 Print Assumptions C19_saslerr_condition_unmarshal_total.
+
+(* ---- shared state: decoding into a destination that already holds a value ---- *)
+
+(* the statements of all UnmarshalXML bodies through which a result can depend on the previous
+   contents of the destination (a receiver field resliced from itself, appended to, accumulated),
+   with their guards, are exactly the known ones (read from the source on every run) *)
+Theorem C19_unmarshal_reuse_sites_are_known : gen_reuse_sites = known_reuse_sites.
+Proof. exact reuse_sites_are_known. Qed.
+Print Assumptions C19_unmarshal_reuse_sites_are_known.
+
+(* crypto.Key re-uses the destination's KeyID buffer: for every previous content and length of
+   it, the key id is exactly the decoded data *)
+Theorem C19_key_buffer_independent : forall old data explen,
+  length data <= explen -> key_buf false old data explen = data.
+Proof. exact key_buf_indep. Qed.
+Print Assumptions C19_key_buffer_independent.
+
+Theorem C19_key_unmarshal_ignores_destination : forall o old t,
+  b64_len_ok o -> ckey_un_into old o t = ckey_un o t.
+Proof. exact ckey_un_into_indep. Qed.
+Print Assumptions C19_key_unmarshal_ignores_destination.
+
+(* trimming only when fewer bytes than expected were decoded would keep the tail of a longer key *)
+Theorem C19_key_buffer_guard_on_expected_length_refuted :
+  exists old data explen, length data <= explen /\ key_buf true old data explen <> data.
+Proof. exact key_buf_guard_on_explen_refuted. Qed.
+Print Assumptions C19_key_buffer_guard_on_expected_length_refuted.
+
+Theorem C19_hashoutput_unmarshal_ignores_destination : forall o old t,
+  hashout_un_into old o t = hashout_un o t.
+Proof. exact hashout_un_into_indep. Qed.
+Print Assumptions C19_hashoutput_unmarshal_ignores_destination.
+
+(* saslerr.Error: the condition never depends on the destination; language and text are the
+   destination's exactly when the element has no text *)
+Theorem C19_saslerr_unmarshal_condition_ignores_destination : forall old old' t,
+  rmap se_cond (saslerr_un_into old t) = rmap se_cond (saslerr_un_into old' t).
+Proof. exact saslerr_into_cond. Qed.
+Print Assumptions C19_saslerr_unmarshal_condition_ignores_destination.
+
+Theorem C19_saslerr_unmarshal_kept_fields : forall old t v, saslerr_un_into old t = Ok v ->
+  (se_lang v = se_lang old /\ se_text v = se_text old) \/ (forall old', saslerr_un_into old' t = Ok v).
+Proof. exact saslerr_into_kept. Qed.
+Print Assumptions C19_saslerr_unmarshal_kept_fields.
+
+(* ---- histories: a submission is derived from a form and leaves it unchanged ---- *)
+
+(* from the source: the loops of TokenReader and Submit range over copies of the fields and
+   nothing assigns through an element; hence the form after Submit/TokenReader is the form before *)
+Theorem C19_form_submit_leaves_form : 
+  (form_by_ref = false /\ map fst gen_form_field_loops = [str "TokenReader"; str "Submit"]) /\
+  forall jp d, fields_after jp form_by_ref d (fields d) = Ok (fields d).
+Proof. exact (conj form_loops_copy submit_leaves_form). Qed.
+Print Assumptions C19_form_submit_leaves_form.
+
+Theorem C19_form_submit_through_pointer_refuted :
+  exists d, fields_after (fun _ => Err) true d (fields d) <> Ok (fields d).
+Proof. exact fields_after_by_ref_refuted. Qed.
+Print Assumptions C19_form_submit_through_pointer_refuted.
 
 (* ---- special cases ---- *)
 
